@@ -241,6 +241,11 @@ func quote(v rt.Value) (string, bool) {
 	}
 	switch v.Type() {
 	case rt.IntType:
+		if v.AsInt() == math.MinInt64 {
+			// -9223372036854775808 would read back as a float (the literal
+			// 9223372036854775808 does not fit an integer).
+			return "0x8000000000000000", true
+		}
 		return strconv.Itoa(int(v.AsInt())), true
 	case rt.FloatType:
 		x := v.AsFloat()
